@@ -264,7 +264,7 @@ Section SP.
   Lemma branch2_R a c1 n1 b c2 n2 p' :
     a <> b -> branch2 a c1 b c2 = TOk p' -> good c1 n1 -> good c2 n2 ->
     exists cs1 cs2, set_child empty17 a n1 = Some cs1 /\ set_child cs1 b n2 = Some cs2 /\
-                    R p' (NFull cs2).
+                    R p' (NFull cs2) /\ unhashed p'.
   Proof.
     intros Hab Hb G1 G2. unfold branch2 in Hb.
     destruct (set_nth (N.to_nat a) c1 st_empty16) as [scs1|] eqn:S1; [|discriminate].
@@ -277,7 +277,7 @@ Section SP.
     destruct (set_nth_spec _ _ _ _ T1) as [M1 P1].
     destruct (set_nth_some (N.to_nat b) n2 cs1) as [cs2 T2]; [rewrite M1; change (length empty17) with 17%nat; lia|].
     destruct (set_nth_spec _ _ _ _ T2) as [M2 P2].
-    exists cs1, cs2. split; [assumption|]. split; [assumption|].
+    exists cs1, cs2. split; [assumption|]. split; [assumption|]. split; [|exact I].
     assert (E17 : forall i, (i < 17)%nat -> nth_error empty17 i = Some NEmpty).
     { intros i Hi. destruct (nth_error empty17 i) eqn:E.
       - f_equal. eapply nth_error_empty17; eassumption.
@@ -406,15 +406,14 @@ Section SP.
         - intros i c0 Hc0. rewrite N2 in Hc0. rewrite P2.
           destruct (Nat.eqb_spec i (N.to_nat k0)); [|apply Hrel1; exact Hc0].
           inversion Hc0; subst c0. exists nc'. split; [reflexivity|]. right. exact Hg. }
-      assert (Hdesc : c <> StNil -> st_insert H f c kr v = TOk ?[c'] -> True) by auto.
-      assert (Hgen : c <> StNil ->
+      match goal with |- ?G =>
+        assert (Hgen : c <> StNil ->
                 match st_insert H f c kr v with
                 | TErr e => TErr e
                 | TOk c' => match set_nth (N.to_nat k0) c' scs1 with
                             | Some cs2 => TOk (StBranch cs2) | None => TErr EPanic end
-                end = TOk st' ->
-                exists n' ev, _ = TOk (true, n', ev) /\ R st' n' /\ inner n' /\ unhashed st' /\
-                  (forall cs0, NFull cs = NFull cs0 -> exists cs', n' = NFull cs')).
+                end = TOk st' -> G)
+      end.
       { intros Hnn Hx. destruct Hcn as [[-> _]|(_ & Hin & HRc)]; [congruence|].
         destruct (st_insert H f c kr v) as [c'|] eqn:Eins; [|discriminate].
         destruct (set_nth (N.to_nat k0) c' scs1) as [scs2|] eqn:Es; [|discriminate]. inversion Hx; subst st'.
@@ -454,39 +453,29 @@ Section SP.
         rewrite !nth_error_app_exact in Hi. simpl hd_error in Hi. cbv iota in Hi.
         rewrite skipn_app_succ, firstn_app_exact in Hi.
         assert (Hk2 : nibbles k2) by (apply nibbles_app_r in Hkn; exact (nibbles_tl _ _ Hkn)).
-        assert (Hg1 : exists c1, (if Nat.ltb (length p) (length (p ++ a :: k2) - 1)
-                                  then hashed H (StExt (skipn (length p + 1) (p ++ a :: k2)) c)
-                                  else hashed H c) = TOk c1 /\ good c1 (inil k2 (NFull cs))).
-        { rewrite skipn_app_succ, app_length. simpl length.
-          destruct k2 as [|x k2].
-          - replace (Nat.ltb (length p) (length p + 1 - 1)) with false by (symmetry; apply Nat.ltb_ge; lia).
-            destruct (hashed H c) as [c1|] eqn:Eh.
-            + exists c1. split; [reflexivity|]. apply (hashed_R c); [exact HRc|exact I|exact Eh].
-            + rewrite Nat.ltb_irrefl in Hi. replace (length p + 1 - 1)%nat with (length p) in Hi by lia.
-              rewrite app_length in Hi. simpl length in Hi.
-              replace (Nat.ltb (length p) (length p + 1 - 1)) with false in Hi by (symmetry; apply Nat.ltb_ge; lia).
-              rewrite Eh in Hi. discriminate.
-          - replace (Nat.ltb (length p) (length p + S (S (length k2)) - 1)) with true
-              by (symmetry; apply Nat.ltb_lt; lia).
-            assert (HRx : R (StExt (x :: k2) c) (NShort (x :: k2) (NFull cs)))
-              by (apply R_ext; [discriminate|assumption|assumption]).
-            destruct (hashed H (StExt (x :: k2) c)) as [c1|] eqn:Eh.
-            + exists c1. split; [reflexivity|]. apply (hashed_R _ _ _ HRx I Eh).
-            + rewrite skipn_app_succ, app_length in Hi. simpl length in Hi.
-              replace (Nat.ltb (length p) (length p + S (S (length k2)) - 1)) with true in Hi
-                by (symmetry; apply Nat.ltb_lt; lia).
-              rewrite Eh in Hi. discriminate. }
-        destruct Hg1 as (c1 & Ec1 & Hgood1). rewrite Ec1 in Hi.
-        destruct (branch2 a c1 b (StLeaf (skipn (length p + 1) (p ++ b :: key2)) v)) as [p'|] eqn:Eb2; [|discriminate].
-        rewrite skipn_app_succ in Eb2.
+        rewrite ?skipn_app_succ in Hi.
+        match type of Hi with match ?X with _ => _ end = _ =>
+          assert (Hg1 : forall c1, X = TOk c1 -> good c1 (inil k2 (NFull cs)));
+            [|destruct X as [c1|] eqn:Ec1; [specialize (Hg1 _ eq_refl)|discriminate]]
+        end.
+        { intros c1 EX. destruct k2 as [|x k2].
+          - match type of EX with (if ?bb then _ else _) = _ =>
+              replace bb with false in EX by (symmetry; apply Nat.ltb_ge; rewrite ?app_length; simpl; lia) end.
+            apply (hashed_R c _ _ HRc I EX).
+          - match type of EX with (if ?bb then _ else _) = _ =>
+              replace bb with true in EX by (symmetry; apply Nat.ltb_lt; rewrite ?app_length; simpl; lia) end.
+            rewrite ?skipn_app_succ in EX.
+            apply (hashed_R _ _ _ (R_ext (x :: k2) c cs ltac:(discriminate) Hk2 HRc) I EX). }
+        rename Hg1 into Hgood1.
+        destruct (branch2 a c1 b (StLeaf key2 v)) as [p'|] eqn:Eb2; [|discriminate].
         assert (Hkey2 : nibbles key2) by (apply nibbles_app_r in Hk; exact (nibbles_tl _ _ Hk)).
         destruct (branch2_R a c1 (inil k2 (NFull cs)) b (StLeaf key2 v) (NShort (key2 ++ [16]) (NValue v)) p'
-                    Hm Eb2 Hgood1) as (cs1 & cs2 & S1 & S2 & HRp).
+                    Hm Eb2 Hgood1) as (cs1 & cs2 & S1 & S2 & HRp & Hup).
         { split; [discriminate|]. split; [exact I|]. apply R_leaf. exact Hkey2. }
         destruct (insert_split f'' p a k2 (NFull cs) b key2 pre v cs1 cs2 ltac:(congruence) S1 S2) as [ev Ein].
         exists (wrap p (NFull cs2)), ev. rewrite <- app_assoc. simpl app. split; [exact Ein|].
         destruct p as [|p0 p]; simpl Nat.eqb in Hi; cbv iota in Hi; inversion Hi; subst st'; simpl wrap.
-        * split; [exact HRp|]. split; [exact I|]. split; [exact I|]. intros cs0 E0; discriminate.
+        * split; [exact HRp|]. split; [exact I|]. split; [exact Hup|]. intros cs0 E0; discriminate.
         * split; [apply R_ext; [discriminate|exact (nibbles_app_l _ _ Hkn)|exact HRp]|].
           split; [exact I|]. split; [exact I|]. intros cs0 E0; discriminate.
     - (* leaf *)
@@ -504,17 +493,414 @@ Section SP.
       pose proof (hashed_R _ _ _ (R_leaf k2 v0 Hk2) I Eh) as Hgood1.
       destruct (branch2 a c1 b (StLeaf key2 v)) as [p'|] eqn:Eb2; [|discriminate].
       destruct (branch2_R a c1 (inil (k2 ++ [16]) (NValue v0)) b (StLeaf key2 v)
-                  (NShort (key2 ++ [16]) (NValue v)) p' Hm Eb2) as (cs1 & cs2 & S1 & S2 & HRp).
+                  (NShort (key2 ++ [16]) (NValue v)) p' Hm Eb2) as (cs1 & cs2 & S1 & S2 & HRp & Hup).
       { replace (inil (k2 ++ [16]) (NValue v0)) with (NShort (k2 ++ [16]) (NValue v0)) by (destruct k2; reflexivity).
         exact Hgood1. }
       { split; [discriminate|]. split; [exact I|]. apply R_leaf. exact Hkey2. }
       destruct (insert_split f'' p a (k2 ++ [16]) (NValue v0) b key2 pre v cs1 cs2 ltac:(congruence) S1 S2) as [ev Ein].
       exists (wrap p (NFull cs2)), ev. rewrite <- !app_assoc. simpl app. split; [exact Ein|].
       destruct p as [|p0 p]; simpl Nat.eqb in Hi; cbv iota in Hi; inversion Hi; subst st'; simpl wrap.
-      * split; [exact HRp|]. split; [exact I|]. split; [exact I|]. intros cs0 E0; discriminate.
+      * split; [exact HRp|]. split; [exact I|]. split; [exact Hup|]. intros cs0 E0; discriminate.
       * split; [apply R_ext; [discriminate|exact (nibbles_app_l _ _ Hkn)|exact HRp]|].
         split; [exact I|]. split; [exact I|]. intros cs0 E0; discriminate.
     - (* hashed: the Go code panics *)
       discriminate.
+  Qed.
+
+  (* ---------------------------------------------------------------- the whole builder *)
+
+  Definition rroot (st : stnode) (t : node) : Prop :=
+    (st = StEmpty /\ t = NEmpty) \/ (R st t /\ inner t /\ unhashed st).
+
+  (* feed the pairs in order; None = an Update returned an error or panicked *)
+  Fixpoint st_feed (s : stack) (kvs : list (list N * list N)) : option stack :=
+    match kvs with
+    | [] => Some s
+    | (k, v) :: r =>
+        match st_update H s k v with
+        | TOk (inr s') => st_feed s' r
+        | _ => None
+        end
+    end.
+
+  Lemma st_feed_sound : forall kvs s t s',
+    rroot (fst s) t -> bytes_ops kvs -> st_feed s kvs = Some s' ->
+    exists t' ev, update_seq resolve t kvs = TOk (t', ev) /\ rroot (fst s') t'.
+  Proof.
+    induction kvs as [|[k v] kvs IH]; intros [st last] t s' Hr HB Hfeed.
+    - simpl in Hfeed. inversion Hfeed; subst. exists t, []. auto.
+    - inversion HB as [|? ? Hk HB']; subst. simpl in Hk. cbn [st_feed] in Hfeed.
+      destruct (st_update H (st, last) k v) as [[c|s1]|] eqn:Eu; try discriminate.
+      unfold st_update in Eu. destruct v as [|b v]; [discriminate|]. cbn [fst snd] in Eu.
+      destruct (negb (slice_lt last (nibbles_of k))); [discriminate|].
+      destruct (st_insert H (S (length (nibbles_of k))) st (nibbles_of k) (b :: v)) as [r|] eqn:Ei; [|discriminate].
+      inversion Eu; subst s1. clear Eu.
+      pose proof (nibbles_of_nibbles _ Hk) as Hn.
+      assert (Hstep : exists t1 ev1,
+                insert resolve (ops_fuel (keybytes_to_hex k)) t [] (keybytes_to_hex k) (NValue (b :: v))
+                  = TOk (true, t1, ev1) /\ rroot r t1).
+      { unfold keybytes_to_hex. cbn [fst] in Hr. destruct Hr as [[-> ->]|(HR & Hin & Hun)].
+        - simpl in Ei. inversion Ei; subst r.
+          replace (ops_fuel (nibbles_of k ++ [16])) with (S (ops_fuel (nibbles_of k ++ [16]) - 1))
+            by (unfold ops_fuel; lia).
+          rewrite insert_empty_snoc. eexists _, _. split; [reflexivity|]. right.
+          split; [apply R_leaf; exact Hn|]. split; exact I.
+        - destruct (insert_R _ _ _ _ _ _ HR Hn Ei (ops_fuel (nibbles_of k ++ [16])) [])
+            as (t1 & ev1 & E1 & HR1 & Hin1 & Hun1 & _).
+          { unfold ops_fuel. rewrite app_length. simpl. lia. }
+          exists t1, ev1. split; [exact E1|]. right. auto. }
+      destruct Hstep as (t1 & ev1 & E1 & Hr1).
+      destruct (IH (r, nibbles_of k) t1 s' Hr1 HB' Hfeed) as (t' & ev' & E' & Hr').
+      exists t', (ev1 ++ ev'). split; [|exact Hr'].
+      cbn [update_seq]. unfold update. cbv zeta. rewrite E1, E'. reflexivity.
+  Qed.
+
+  (* (g, stack trie) SOUNDNESS of the streaming builder: whenever StackTrie
+     accepts the pairs (no error return, no panic) its Hash() is the root hash
+     of the ordinary trie built from the same pairs by Trie.Update. *)
+  Theorem stack_trie_sound kvs s :
+    bytes_ops kvs -> st_feed stack_new kvs = Some s ->
+    exists t ev h, update_seq resolve NEmpty kvs = TOk (t, ev) /\
+      st_root H s = TOk h /\ hash_root H t = Some h.
+  Proof.
+    intros HB Hfeed.
+    destruct (st_feed_sound kvs stack_new NEmpty s (or_introl (conj eq_refl eq_refl)) HB Hfeed)
+      as (t & ev & E & Hr).
+    exists t, ev. unfold st_root. destruct Hr as [[-> ->]|(HR & Hin & Hun)].
+    - exists (H [128]). auto.
+    - destruct (hash_R _ _ HR) as (e & Ee & _ & Ef). exists (H e). split; [exact E|].
+      split; [exact (Ef Hun)|]. unfold hash_root, node_ref.
+      destruct t; try destruct Hin; rewrite Ee, andb_false_r; reflexivity.
+  Qed.
+
+  (* ---------------------------------------------------------------- progress: ascending equal-length keys are accepted *)
+
+  (* [sp st l]: [l] (the last inserted key, from this node down) is the rightmost
+     path of [st]; everything left of it is nil or already hashed *)
+  Inductive sp : stnode -> list N -> Prop :=
+  | sp_leaf k v : sp (StLeaf k v) k
+  | sp_ext k c l' : sp c l' -> sp (StExt k c) (k ++ l')
+  | sp_branch cs x l' c :
+      nth_error cs (N.to_nat x) = Some c -> sp c l' ->
+      (forall j cj, nth_error cs j = Some cj -> (N.to_nat x < j)%nat -> cj = StNil) ->
+      (forall j cj, nth_error cs j = Some cj -> (j < N.to_nat x)%nat ->
+         cj = StNil \/ exists v, cj = StHashed v) ->
+      sp (StBranch cs) (x :: l').
+
+  Lemma sp_inv st l : sp st l ->
+    match st with
+    | StLeaf k _ => l = k
+    | StExt k c => exists l', l = k ++ l' /\ sp c l'
+    | StBranch cs =>
+        exists x l' c, l = x :: l' /\ nth_error cs (N.to_nat x) = Some c /\ sp c l' /\
+          (forall j cj, nth_error cs j = Some cj -> (N.to_nat x < j)%nat -> cj = StNil) /\
+          (forall j cj, nth_error cs j = Some cj -> (j < N.to_nat x)%nat ->
+             cj = StNil \/ exists v, cj = StHashed v)
+    | _ => False
+    end.
+  Proof. destruct 1; eauto 10. Qed.
+
+  Lemma slice_lt_app (p a b : list N) : slice_lt (p ++ a) (p ++ b) = slice_lt a b.
+  Proof. induction p as [|z p IH]; [reflexivity|]. simpl. rewrite N.ltb_irrefl, N.eqb_refl. exact IH. Qed.
+
+  Lemma slice_lt_split (l : list N) : forall key, length l = length key -> slice_lt l key = true ->
+    exists p a b l2 key2, l = p ++ a :: l2 /\ key = p ++ b :: key2 /\ a < b.
+  Proof.
+    induction l as [|x l IH]; intros [|y key] HL Hlt; simpl in *; try discriminate.
+    destruct (N.ltb_spec x y) as [Hxy|Hxy].
+    - exists [], x, y, l, key. auto.
+    - destruct (N.eqb_spec x y) as [->|Ne]; [|discriminate].
+      destruct (IH key ltac:(lia) Hlt) as (p & a & b & l2 & key2 & -> & -> & Hab).
+      exists (y :: p), a, b, l2, key2. auto.
+  Qed.
+
+  Lemma gdi_app_neq (p : list N) a k2 b key2 :
+    a <> b -> get_diff_index (p ++ a :: k2) (p ++ b :: key2) = Some (length p).
+  Proof.
+    intros Hn. induction p as [|z p IH]; simpl.
+    - destruct (N.eqb_spec a b); congruence.
+    - rewrite N.eqb_refl, IH. reflexivity.
+  Qed.
+
+  Lemma gdi_full (k key1 : list N) : get_diff_index k (k ++ key1) = Some (length k).
+  Proof. induction k as [|z k IH]; simpl; [reflexivity|]. rewrite N.eqb_refl, IH. reflexivity. Qed.
+
+  Lemma hashed_ok c n : R c n -> exists v, hashed H c = TOk (StHashed v).
+  Proof.
+    intros HR. destruct (hash_R _ _ HR) as (e & _ & Eh & _). unfold hashed. rewrite Eh. eauto.
+  Qed.
+
+  Lemma branch2_ok a c1 b c2 : a < 16 -> b < 16 -> a <> b ->
+    exists scs2, branch2 a c1 b c2 = TOk (StBranch scs2) /\
+      forall j, nth_error scs2 j =
+                if Nat.eqb j (N.to_nat b) then Some c2
+                else if Nat.eqb j (N.to_nat a) then Some c1 else nth_error st_empty16 j.
+  Proof.
+    intros Ha Hb Hab. unfold branch2.
+    destruct (set_nth_some (N.to_nat a) c1 st_empty16) as [scs1 S1]; [change (length st_empty16) with 16%nat; lia|].
+    destruct (set_nth_spec _ _ _ _ S1) as [L1 N1]. rewrite S1.
+    destruct (set_nth_some (N.to_nat b) c2 scs1) as [scs2 S2]; [rewrite L1; change (length st_empty16) with 16%nat; lia|].
+    destruct (set_nth_spec _ _ _ _ S2) as [L2 N2]. rewrite S2.
+    exists scs2. split; [reflexivity|]. intros j. rewrite N2, N1. reflexivity.
+  Qed.
+
+  (* the branch with the old subtree (hashed) at [a] and the new leaf at [b > a] *)
+  Lemma sp_branch2 a v1 b key2 v scs2 :
+    a < b ->
+    (forall j, nth_error scs2 j =
+               if Nat.eqb j (N.to_nat b) then Some (StLeaf key2 v)
+               else if Nat.eqb j (N.to_nat a) then Some (StHashed v1) else nth_error st_empty16 j) ->
+    sp (StBranch scs2) (b :: key2).
+  Proof.
+    intros Hab Hn. apply (sp_branch scs2 b key2 (StLeaf key2 v)).
+    - rewrite Hn, Nat.eqb_refl. reflexivity.
+    - constructor.
+    - intros j cj Hj Hlt. rewrite Hn in Hj.
+      destruct (Nat.eqb_spec j (N.to_nat b)); [lia|]. destruct (Nat.eqb_spec j (N.to_nat a)); [lia|].
+      eapply nth_error_st_empty16; eassumption.
+    - intros j cj Hj Hlt. rewrite Hn in Hj.
+      destruct (Nat.eqb_spec j (N.to_nat b)); [lia|]. destruct (Nat.eqb_spec j (N.to_nat a)).
+      + inversion Hj; subst. right. eauto.
+      + left. eapply nth_error_st_empty16; eassumption.
+  Qed.
+
+  Lemma hash_prev_same : forall i scs, (i <= length scs)%nat ->
+    (forall j cj, nth_error scs j = Some cj -> (j < i)%nat -> cj = StNil \/ exists v, cj = StHashed v) ->
+    hash_prev H i scs = TOk scs.
+  Proof.
+    induction i as [|j0 IH]; intros scs Hi Hl; [reflexivity|]. simpl.
+    destruct (nth_error scs j0) as [c|] eqn:Ec; [|apply nth_error_None in Ec; lia].
+    destruct (Hl _ _ Ec ltac:(lia)) as [->|[v ->]]; [|reflexivity].
+    apply IH; [lia|]. intros j cj Hj Hlt. apply (Hl _ _ Hj). lia.
+  Qed.
+
+  Lemma hash_prev_spine cs x c : forall i scs,
+    children_rel scs cs -> (i <= length scs)%nat -> (N.to_nat x < i)%nat ->
+    nth_error scs (N.to_nat x) = Some c -> c <> StNil ->
+    (forall j cj, nth_error scs j = Some cj -> (N.to_nat x < j)%nat -> cj = StNil) ->
+    (forall j cj, nth_error scs j = Some cj -> (j < N.to_nat x)%nat ->
+       cj = StNil \/ exists v, cj = StHashed v) ->
+    exists scs1, hash_prev H i scs = TOk scs1 /\
+      (forall j, (i <= j)%nat -> nth_error scs1 j = nth_error scs j) /\
+      (forall j cj, nth_error scs1 j = Some cj -> (j < i)%nat -> cj = StNil \/ exists v, cj = StHashed v).
+  Proof.
+    induction i as [|j0 IH]; intros scs Hrel Hi Hx Hc Hnn Hright Hleft; [lia|]. simpl.
+    destruct (Nat.eq_dec j0 (N.to_nat x)) as [->|Nj].
+    - rewrite Hc.
+      assert (Hdone : forall scs1, (forall j, nth_error scs1 j =
+                         if Nat.eqb j (N.to_nat x) then (match nth_error scs1 (N.to_nat x) with Some y => Some y | None => None end)
+                         else nth_error scs j) ->
+                (exists v, nth_error scs1 (N.to_nat x) = Some (StHashed v)) ->
+                (forall j, (S (N.to_nat x) <= j)%nat -> nth_error scs1 j = nth_error scs j) /\
+                (forall j cj, nth_error scs1 j = Some cj -> (j < S (N.to_nat x))%nat ->
+                   cj = StNil \/ exists v, cj = StHashed v)).
+      { intros scs1 Hn [v Hv]. split.
+        - intros j Hj. rewrite Hn. destruct (Nat.eqb_spec j (N.to_nat x)); [lia|reflexivity].
+        - intros j cj Hj Hlt. destruct (Nat.eq_dec j (N.to_nat x)) as [->|Nx].
+          + rewrite Hv in Hj. inversion Hj; subst. right. eauto.
+          + rewrite Hn in Hj. destruct (Nat.eqb_spec j (N.to_nat x)); [congruence|].
+            apply (Hleft _ _ Hj). lia. }
+      destruct (Hrel _ _ Hc) as (n & En & [[-> _]|(_ & Hin & HR)]); [congruence|].
+      assert (Hgen : unhashed c -> exists scs1,
+                match hashed H c with
+                | TErr e => TErr e
+                | TOk c' => match set_nth (N.to_nat x) c' scs with Some cs' => TOk cs' | None => TErr EPanic end
+                end = TOk scs1 /\
+                (forall j, (S (N.to_nat x) <= j)%nat -> nth_error scs1 j = nth_error scs j) /\
+                (forall j cj, nth_error scs1 j = Some cj -> (j < S (N.to_nat x))%nat ->
+                   cj = StNil \/ exists v, cj = StHashed v)).
+      { intros _. destruct (hashed_ok _ _ HR) as [v Ev]. rewrite Ev.
+        destruct (set_nth_some (N.to_nat x) (StHashed v) scs) as [scs1 Es]; [lia|]. rewrite Es.
+        destruct (set_nth_spec _ _ _ _ Es) as [L Hn]. exists scs1. split; [reflexivity|].
+        apply Hdone.
+        - intros j. rewrite !Hn, Nat.eqb_refl. destruct (Nat.eqb j (N.to_nat x)); reflexivity.
+        - exists v. rewrite Hn, Nat.eqb_refl. reflexivity. }
+      destruct c; try (apply Hgen; exact I); [congruence|].
+      exists scs. split; [reflexivity|]. apply Hdone.
+      + intros j. rewrite Hc. destruct (Nat.eqb_spec j (N.to_nat x)) as [->|]; [exact Hc|reflexivity].
+      + eauto.
+    - destruct (nth_error scs j0) as [cj|] eqn:Ej; [|apply nth_error_None in Ej; lia].
+      pose proof (Hright _ _ Ej ltac:(lia)) as ->.
+      destruct (IH scs Hrel ltac:(lia) ltac:(lia) Hc Hnn Hright Hleft) as (scs1 & E1 & U1 & L1).
+      exists scs1. split; [exact E1|]. split.
+      + intros j Hj. apply U1. lia.
+      + intros j cj Hj Hlt. destruct (Nat.eq_dec j j0) as [->|Njj].
+        * rewrite U1 in Hj by lia. rewrite Ej in Hj. inversion Hj; subst. left. reflexivity.
+        * apply (L1 _ _ Hj). lia.
+  Qed.
+
+  Lemma insert_progress : forall fuel st l, sp st l ->
+    forall n key v, R st n -> nibbles key -> length key = length l -> slice_lt l key = true ->
+    (length key < fuel)%nat ->
+    exists st', st_insert H fuel st key v = TOk st' /\ sp st' key.
+  Proof.
+    induction fuel as [|f IH]; intros st l Hsp n key v HR Hk HL Hlt Hf; [lia|].
+    destruct st as [| |scs|k c|k v0|hv]; apply sp_inv in Hsp; try solve [destruct Hsp];
+      apply R_inv in HR; cbn [st_insert].
+    - (* branch *)
+      destruct Hsp as (x & l' & c & -> & Hc & Hspc & Hright & Hleft).
+      destruct HR as (cs & -> & Ls & Lc & H16 & Hrel).
+      destruct key as [|k0 kr]; [discriminate|]. simpl in HL, Hlt.
+      inversion Hk as [|? ? Hk0 Hkr]; subst.
+      assert (Hcnn : c <> StNil) by (intros ->; inversion Hspc).
+      assert (Hxl : (N.to_nat x < 16)%nat) by (rewrite <- Ls; apply nth_error_Some; congruence).
+      destruct (N.ltb_spec x k0) as [Hxk|Hxk].
+      + (* a new child to the right of the spine *)
+        destruct (hash_prev_spine cs x c (N.to_nat k0) scs Hrel ltac:(lia) ltac:(lia) Hc Hcnn Hright Hleft)
+          as (scs1 & E1 & U1 & L1).
+        rewrite E1. rewrite (U1 (N.to_nat k0) ltac:(lia)).
+        destruct (nth_error scs (N.to_nat k0)) as [ck|] eqn:Eck; [|apply nth_error_None in Eck; lia].
+        pose proof (Hright _ _ Eck ltac:(lia)) as ->.
+        assert (Ls1 : length scs1 = 16%nat).
+        { destruct (hash_prev_R cs _ _ _ E1 Hrel) as [_ L]. lia. }
+        destruct (set_nth_some (N.to_nat k0) (StLeaf kr v) scs1) as [scs2 Es]; [lia|]. rewrite Es.
+        destruct (set_nth_spec _ _ _ _ Es) as [L2 N2].
+        exists (StBranch scs2). split; [reflexivity|].
+        apply (sp_branch scs2 k0 kr (StLeaf kr v)).
+        * rewrite N2, Nat.eqb_refl. reflexivity.
+        * constructor.
+        * intros j cj Hj Hjl. rewrite N2 in Hj. destruct (Nat.eqb_spec j (N.to_nat k0)); [lia|].
+          rewrite U1 in Hj by lia. apply (Hright _ _ Hj). lia.
+        * intros j cj Hj Hjl. rewrite N2 in Hj. destruct (Nat.eqb_spec j (N.to_nat k0)); [lia|].
+          apply (L1 _ _ Hj). lia.
+      + (* descend along the spine *)
+        destruct (N.eqb_spec x k0) as [->|Ne]; [|discriminate].
+        rewrite (hash_prev_same (N.to_nat k0) scs ltac:(lia) Hleft), Hc.
+        destruct (Hrel _ _ Hc) as (nc & Enc & [[-> _]|(_ & Hin & HRc)]); [congruence|].
+        destruct (IH c l' Hspc nc kr v HRc Hkr ltac:(lia) Hlt ltac:(simpl in Hf; lia)) as (c' & Ei & Hsp').
+        assert (Hgoal : exists st',
+                  match st_insert H f c kr v with
+                  | TErr e => TErr e
+                  | TOk c' => match set_nth (N.to_nat k0) c' scs with
+                              | Some cs2 => TOk (StBranch cs2) | None => TErr EPanic end
+                  end = TOk st' /\ sp st' (k0 :: kr)).
+        { rewrite Ei. destruct (set_nth_some (N.to_nat k0) c' scs) as [scs2 Es]; [lia|]. rewrite Es.
+          destruct (set_nth_spec _ _ _ _ Es) as [L2 N2].
+          exists (StBranch scs2). split; [reflexivity|]. apply (sp_branch scs2 k0 kr c').
+          - rewrite N2, Nat.eqb_refl. reflexivity.
+          - exact Hsp'.
+          - intros j cj Hj Hjl. rewrite N2 in Hj. destruct (Nat.eqb_spec j (N.to_nat k0)); [lia|].
+            apply (Hright _ _ Hj Hjl).
+          - intros j cj Hj Hjl. rewrite N2 in Hj. destruct (Nat.eqb_spec j (N.to_nat k0)); [lia|].
+            apply (Hleft _ _ Hj Hjl). }
+        destruct c; try exact Hgoal; congruence.
+    - (* extension *)
+      destruct Hsp as (l' & -> & Hspc).
+      destruct HR as (cs & -> & Hkne & Hkn & HRc).
+      destruct (slice_lt_split _ _ (eq_sym HL) Hlt) as (p & a & b & l2 & key2 & El & -> & Hab).
+      assert (Hnib : a < 16 /\ b < 16).
+      { apply nibbles_app_r in Hk. inversion Hk; subst. split; [lia|assumption]. }
+      assert (Hfull : forall q, p = k ++ q -> l' = q ++ a :: l2 ->
+                exists st', st_insert H (S f) (StExt k c) (p ++ b :: key2) v = TOk st' /\ sp st' (p ++ b :: key2)).
+      { intros q -> ->. cbn [st_insert]. rewrite <- app_assoc, gdi_full, Nat.eqb_refl, skipn_app_exact.
+        destruct (IH c _ Hspc (NFull cs) (q ++ b :: key2) v HRc) as (c' & Ei & Hsp').
+        - rewrite <- app_assoc in Hk. exact (nibbles_app_r _ _ Hk).
+        - clear -HL. rewrite !app_length in *. simpl in *. lia.
+        - rewrite slice_lt_app. simpl. destruct (N.ltb_spec a b); [reflexivity|lia].
+        - clear -Hf Hkne. rewrite !app_length in *. destruct k; [congruence|]. simpl in *. lia.
+        - rewrite Ei. exists (StExt k c'). split; [reflexivity|]. constructor. exact Hsp'. }
+      cbn [st_insert] in Hfull.
+      apply app_eq_app in El as [lq [[Ek El']|[Ep El']]].
+      + destruct lq as [|a' k2].
+        * rewrite app_nil_r in Ek. subst k. apply (Hfull []); [rewrite app_nil_r; reflexivity|symmetry; exact El'].
+        * simpl in El'. inversion El'; subst a' l2. subst k.
+          (* the keys diverge inside the extension key *)
+          rewrite (gdi_app_neq p a k2 b key2 ltac:(lia)).
+          replace (Nat.eqb (length p) (length (p ++ a :: k2))) with false
+            by (symmetry; apply Nat.eqb_neq; rewrite app_length; simpl; lia).
+          rewrite !nth_error_app_exact. simpl hd_error. cbv iota.
+          rewrite !skipn_app_succ, firstn_app_exact.
+          assert (Hk2 : nibbles k2) by (apply nibbles_app_r in Hkn; exact (nibbles_tl _ _ Hkn)).
+          assert (Hh : exists v1, (if Nat.ltb (length p) (length (p ++ a :: k2) - 1)
+                                   then hashed H (StExt k2 c) else hashed H c) = TOk (StHashed v1)).
+          { destruct (Nat.ltb (length p) (length (p ++ a :: k2) - 1)) eqn:Eb.
+            - destruct k2 as [|x2 k2]; [apply Nat.ltb_lt in Eb; rewrite app_length in Eb; simpl in Eb; lia|].
+              apply (hashed_ok _ _ (R_ext (x2 :: k2) c cs ltac:(discriminate) Hk2 HRc)).
+            - apply (hashed_ok _ _ HRc). }
+          destruct Hh as [v1 ->].
+          destruct (branch2_ok a (StHashed v1) b (StLeaf key2 v) (proj1 Hnib) (proj2 Hnib) ltac:(lia))
+            as (scs2 & Eb2 & Hn2).
+          rewrite Eb2. pose proof (sp_branch2 a v1 b key2 v scs2 Hab Hn2) as Hspb.
+          destruct p as [|p0 p]; simpl Nat.eqb; cbv iota; eexists; (split; [reflexivity|]).
+          -- exact Hspb.
+          -- apply (sp_ext (p0 :: p)). exact Hspb.
+      + apply (Hfull lq Ep El').
+    - (* leaf *)
+      subst l. destruct HR as [-> Hkn].
+      destruct (slice_lt_split _ _ (eq_sym HL) Hlt) as (p & a & b & l2 & key2 & -> & -> & Hab).
+      assert (Hnib : a < 16 /\ b < 16).
+      { apply nibbles_app_r in Hk. apply nibbles_app_r in Hkn. inversion Hk; inversion Hkn; subst. split; assumption. }
+      rewrite (gdi_app_neq p a l2 b key2 ltac:(lia)).
+      replace (Nat.leb (length (p ++ a :: l2)) (length p)) with false
+        by (symmetry; apply Nat.leb_gt; rewrite app_length; simpl; lia).
+      rewrite !nth_error_app_exact. simpl hd_error. cbv iota.
+      rewrite !skipn_app_succ, firstn_app_exact.
+      assert (Hl2 : nibbles l2) by (apply nibbles_app_r in Hkn; exact (nibbles_tl _ _ Hkn)).
+      destruct (hashed_ok _ _ (R_leaf l2 v0 Hl2)) as [v1 ->].
+      destruct (branch2_ok a (StHashed v1) b (StLeaf key2 v) (proj1 Hnib) (proj2 Hnib) ltac:(lia))
+        as (scs2 & Eb2 & Hn2).
+      rewrite Eb2. pose proof (sp_branch2 a v1 b key2 v scs2 Hab Hn2) as Hspb.
+      destruct p as [|p0 p]; simpl Nat.eqb; cbv iota; eexists; (split; [reflexivity|]).
+      + exact Hspb.
+      + apply (sp_ext (p0 :: p)). exact Hspb.
+  Qed.
+
+  (* strictly ascending hex keys (bytes.Compare(t.last, k) < 0 at every Update) *)
+  Fixpoint asc (last : list N) (kvs : list (list N * list N)) : Prop :=
+    match kvs with
+    | [] => True
+    | (k, v) :: r => slice_lt last (nibbles_of k) = true /\ asc (nibbles_of k) r
+    end.
+
+  Definition sroot (s : stack) (t : node) (L : nat) : Prop :=
+    (fst s = StEmpty /\ t = NEmpty /\ snd s = []) \/
+    (R (fst s) t /\ inner t /\ unhashed (fst s) /\ sp (fst s) (snd s) /\ length (snd s) = L).
+
+  Lemma st_feed_total : forall kvs s t L,
+    sroot s t L -> bytes_ops kvs ->
+    Forall (fun kv => snd kv <> [] /\ length (nibbles_of (fst kv)) = L) kvs ->
+    asc (snd s) kvs -> exists s', st_feed s kvs = Some s'.
+  Proof.
+    induction kvs as [|[k v] kvs IH]; intros [st last] t L Hr HB HF Hasc; [eexists; reflexivity|].
+    inversion HB as [|? ? Hk HB']; subst. inversion HF as [|? ? Hvl HF']; subst. destruct Hvl as [Hv HLk]. simpl in Hk, Hv, HLk.
+    destruct Hasc as [Hlt Hasc']. cbn [fst snd] in *.
+    pose proof (nibbles_of_nibbles _ Hk) as Hn.
+    assert (Hstep : exists st' t', st_insert H (S (length (nibbles_of k))) st (nibbles_of k) v = TOk st' /\
+                      sroot (st', nibbles_of k) t' (length (nibbles_of k))).
+    { unfold sroot in Hr. cbn [fst snd] in Hr.
+      destruct Hr as [(-> & -> & ->)|(HR & Hin & Hun & Hsp & HLl)]; unfold sroot; cbn [fst snd] in *.
+      - exists (StLeaf (nibbles_of k) v), (NShort (nibbles_of k ++ [16]) (NValue v)).
+        split; [reflexivity|]. right. cbn [fst snd].
+        split; [apply R_leaf; exact Hn|]. split; [exact I|]. split; [exact I|]. split; [constructor|reflexivity].
+      - destruct (insert_progress (S (length (nibbles_of k))) st last Hsp t (nibbles_of k) v HR Hn)
+          as (st' & Ei & Hsp'); [lia|exact Hlt|lia|].
+        destruct (insert_R _ _ _ _ _ _ HR Hn Ei (length (nibbles_of k) + 2)%nat [])
+          as (t' & ev & _ & HR' & Hin' & Hun' & _); [lia|].
+        exists st', t'. split; [exact Ei|]. right. cbn [fst snd]. auto. }
+    destruct Hstep as (st' & t' & Ei & Hr').
+    cbn [st_feed]. unfold st_update. cbn [fst snd]. destruct v as [|b v]; [congruence|].
+    rewrite Hlt. cbn [negb]. rewrite Ei.
+    apply (IH (st', nibbles_of k) t' (length (nibbles_of k)) Hr' HB'); [|exact Hasc'].
+    eapply Forall_impl; [|exact HF']. intros kv [? ?]. split; [assumption|]. lia.
+  Qed.
+
+  (* (g, stack trie) FULL: for byte keys of one length in strictly ascending
+     order with non-empty values, StackTrie accepts every pair (no error, no
+     panic) and its Hash() is the root hash of the ordinary trie built from the
+     same pairs *)
+  Theorem stack_trie_root kvs Lb :
+    bytes_ops kvs ->
+    Forall (fun kv => snd kv <> [] /\ length (fst kv) = Lb) kvs ->
+    asc [] kvs ->
+    exists s t ev h, st_feed stack_new kvs = Some s /\
+      update_seq resolve NEmpty kvs = TOk (t, ev) /\
+      st_root H s = TOk h /\ hash_root H t = Some h.
+  Proof.
+    intros HB HF Hasc.
+    destruct (st_feed_total kvs stack_new NEmpty (2 * Lb)%nat) as [s Hs]; try assumption.
+    - left. auto.
+    - eapply Forall_impl; [|exact HF]. intros kv [? <-]. split; [assumption|]. apply nibbles_of_length.
+    - destruct (stack_trie_sound kvs s HB Hs) as (t & ev & h & E1 & E2 & E3).
+      exists s, t, ev, h. auto.
   Qed.
 End SP.
